@@ -43,7 +43,7 @@ def permute(ctx, items, label):
 
 def main(run):
     run.bounds = {"operations": "trait handle_layer with create/update returning {2 process env deltas + launch delta, 2 exec.d programs, 2 SBOMs}; "
-                                "LayerRef::write_exec_d_programs with 2 programs; LayerRef::write_sboms with 2 formats",
+                                "LayerRef::write_exec_d_programs with 2 programs; LayerRef::write_sboms with 2 formats; exec.d program names plain (p1, p2) or nested with a shared final component (web/setup-env, worker/setup-env)",
                   "pre-state": "arbitrary layers directory satisfying the layer invariant (C02 quick universe)",
                   "nondeterminism": "every HashMap iteration and directory listing of the second run permuted (quick: identity/reversal/rotation; thorough: all permutations up to 3 elements)"}
     run.assumptions = ["BTreeMap iteration is sorted (std); HashMap iteration and read_dir order are arbitrary",
@@ -61,14 +61,21 @@ def main(run):
     lr_fns = C01.writer_fns(P)
     run.encoded(P, hl + list(lr_fns.values()))
 
+    def prog_names(ctx):
+        """plain program names, or the per-process layout `<process>/<name>` with a shared final component"""
+        if not hasattr(ctx, "names_kind"):
+            ctx.names_kind = ["plain", "nested"][ctx.choose([True, True], "exec.d-names")]
+        return ("p1", "p2") if ctx.names_kind == "plain" else ("web/setup-env", "worker/setup-env")
+
     def rich_result(ctx, mid):
         le = P.call(ctx, le_new, [], tyenv={})
         leb = Box(le)
         for sc, nm in ((("Process", "web"), "X"), (("Process", "worker"), "Y"), ("Launch", "Z")):
             P.call(ctx, le_insert, [Ref(leb), C02.scope_adt(sc), Adt("ModificationBehavior", "Override", []), nm, z3.String(f"val_{nm}")], tyenv={})
         progs = summ_coll.AssocV(False)
-        progs.items.append(["p1", "/src/prog"])
-        progs.items.append(["p2", "/src/prog2"])
+        n1_, n2_ = prog_names(ctx)
+        progs.items.append([n1_, "/src/prog"])
+        progs.items.append([n2_, "/src/prog2"])
         sboms = VecV([P.mk_struct("Sbom", format=Adt("SbomFormat", f, []), data=f"new-{f}") for f in ("CycloneDxJson", "SpdxJson")])
         return P.mk_struct("LayerResult", metadata=MetaVal(z3.IntVal(mid)), env=Some(leb.val), exec_d_programs=progs, sboms=sboms)
 
@@ -116,8 +123,9 @@ def main(run):
             lr = P.mk_struct("LayerRef", name=Adt("LayerName", None, ["n1"]), layers_dir=L, buildpack=UNIT, state=Adt("LayerState", "Restored", ["c"]))
             if op == "execd":
                 progs = summ_coll.AssocV(False)
-                progs.items.append(["p1", "/src/prog"])
-                progs.items.append(["p2", "/src/prog2"])
+                n1_, n2_ = prog_names(ctx)
+                progs.items.append([n1_, "/src/prog"])
+                progs.items.append([n2_, "/src/prog2"])
                 r = deref(P.call(ctx, lr_fns["write_exec_d_programs"], [Ref(Box(lr)), progs], tyenv={}))
             else:
                 sboms = VecV([P.mk_struct("Sbom", format=Adt("SbomFormat", f, []), data=f"new-{f}") for f in ("CycloneDxJson", "SyftJson")])
@@ -174,18 +182,21 @@ def main(run):
             diff = [p_ for p_ in sorted(set(w1.fs) | set(w2.fs)) if str(w1.get(p_).kind) != str(w2.get(p_).kind) or str(w1.get(p_).content) != str(w2.get(p_).content)]
             # a nondeterministic output cannot be "replayed" on demand in one process; the differing nodes are reported and the
             # finding is confirmed by running the real operation repeatedly in fresh processes (different hash seeds)
-            scn = {"op": ctx.op, "differs": diff[:6]}
+            scn = {"op": ctx.op, "differs": diff[:6], "names": getattr(ctx, "names_kind", "plain")}
             run.candidate(f"outputs-depend-on-iteration-order:{ctx.op}", f"{ctx.op}: runs differ at {diff[:4]} ({out['r1']} vs {out['r2']})", scn, confirm_real(run, ctx, m, ctx.op))
         elif stats["compared"] % 40 == 0:
             run.sample({"op": ctx.op, "result": out["r1"], "permuted": bool(ctx.perm_used)}, limit=8)
     run.extra["c20_stats"] = stats
     # translation validation of the determinism claim on the real build: fresh processes have fresh hash seeds
     if run.shard is None or run.shard[0] == 0:
-        outs = set()
+        outs, outs_nested = set(), set()
         for i in range(6):
-            real = run.replay.run([{"op": "layer-det"}])[0]
-            outs.add(json.dumps(real, sort_keys=True))
-        if len(outs) != 1:
+            real = run.replay.run([{"op": "layer-det", "names": "plain" if i % 2 == 0 else "nested"}])[0]
+            outs.add(json.dumps(real, sort_keys=True) if i % 2 == 0 else "")
+            if i % 2 == 1:
+                outs_nested.add(json.dumps(real, sort_keys=True))
+        outs.discard("")
+        if len(outs) != 1 or len(outs_nested) != 1:
             run.candidate("outputs-depend-on-iteration-order:real-build", "six fresh processes produced different layer outputs", {"op": "layer-det"}, True)
         else:
             run.stats["validated"] += 6
@@ -193,8 +204,8 @@ def main(run):
 
 def confirm_real(run, ctx, m, op):
     outs = set()
-    for i in range(12):
-        real = run.replay.run([{"op": "layer-det"}])[0]
+    for i in range(16):
+        real = run.replay.run([{"op": "layer-det", "names": getattr(ctx, "names_kind", "plain")}])[0]
         outs.add(json.dumps(real, sort_keys=True))
     return len(outs) > 1
 
@@ -207,7 +218,7 @@ def finalize(run):
 
 def replay(run, scen):
     outs = set()
-    for i in range(12):
-        outs.add(json.dumps(run.replay.run([{"op": "layer-det"}])[0], sort_keys=True))
+    for i in range(16):
+        outs.add(json.dumps(run.replay.run([{"op": "layer-det", "names": scen["scenario"].get("names", "plain")}])[0], sort_keys=True))
     print(json.dumps({"distinct_outputs_over_12_processes": len(outs)}))
     return 0
